@@ -250,13 +250,24 @@ def correspond(ctx):
         stream += [i for i in exhaustive(2, placed_gates(3)) if len(i["instrs"]) == 2 and i["method"] == "ALAP"][::3]
     else:
         stream += rng.sample(list(exhaustive(3, reduced_alphabet()[::3])), 600)
+    to_check = []
     for inp in stream:
         res, _ = S.run_real(inp)
         corr.tally("oracle-only")
         corr.count(S.key_of(inp), nontrivial=S.nontrivial(inp))
         n_oracle += 1
         check_real(corr, inp, res)
+        if not isinstance(res, str) and len(to_check) < ctx.n(1500, 8000):
+            cyc = res if inp["mode"] == "cycles" else cycles_from_indices(res)
+            to_check.append((inp, clist([clist([cnat(i) for i in c]) for c in cyc])))
     corr.extra["oracle_only_cases"] = n_oracle
+    # the real output, validated inside Coq by the proved checker (Props/C05.v valid_cycles_sound)
+    verdicts = S.run_checker_many("c05chk", to_check, "valid_cycles")
+    for (inp, lit), ok in zip(to_check, verdicts):
+        corr.tally("real-output-checked-in-coq")
+        if ok is not True:
+            corr.disagree(inp, lit, ok, "real cycle list rejected by the proved checker valid_cycles")
+    corr.extra["checked_in_coq"] = len(to_check)
 
     rule_sweep(ctx, corr)
     return corr
